@@ -425,6 +425,59 @@ fn static_write_monitor(ctx: &mut Ctx, alphabet: &[String]) {
     }
 }
 
+/// (h) Every deterministic instruction on states whose operands are BOUNDARY values (extremes of
+/// i32 / f32, vectors of them, offsets and indices at MIN/MAX): the digest of all post-states per
+/// instruction is logged and must be equal in the debug and the release build (arithmetic that
+/// panics or wraps depending on the profile shows here whatever the program generator happens to
+/// produce). A panic is reported at once.
+fn profile_sweep(ctx: &mut Ctx, alphabet: &[String]) {
+    use crate::gen::{FLOAT_POOL, INT_POOL};
+    use crate::mon::step_named;
+    let (mut is, _names) = new_iset();
+    let cache = sorted_cache(&is);
+    let per_name = ctx.n(40, 400);
+    for (ni, name) in alphabet.iter().enumerate() {
+        if !ctx.mine(ni as u64) {
+            continue;
+        }
+        let mut dig: u64 = 0xcbf29ce484222325;
+        for j in 0..per_name as u64 {
+            let mut r = Rng::derive(ctx.seed, &[14, 8, ni as u64, j]);
+            let mut s = gen::snap(&mut r, &StateOpts { vals: if j % 2 == 0 { Vals::Boundary } else { Vals::Mixed }, max_depth: 3, graphs: true, io: true, bindings: true, flags: false, random_cfg: false }, alphabet);
+            s.e.clear();
+            // operands at the extremes on every typed stack, vectors of at least two elements on top
+            for _ in 0..3 {
+                s.i.insert(0, *r.pick(&INT_POOL));
+                s.f.insert(0, fb(*r.pick(&FLOAT_POOL)));
+            }
+            let vl = 2 + r.below(3);
+            s.iv.insert(0, (0..vl).map(|_| *r.pick(&INT_POOL)).collect());
+            s.iv.insert(0, (0..vl + 1).map(|_| *r.pick(&INT_POOL)).collect());
+            s.fv.insert(0, (0..vl).map(|_| fb(*r.pick(&FLOAT_POOL))).collect());
+            s.fv.insert(0, (0..vl + 1).map(|_| fb(*r.pick(&FLOAT_POOL))).collect());
+            s.bv.insert(0, (0..vl).map(|_| r.bool()).collect());
+            s.bv.insert(0, (0..vl + 1).map(|_| r.bool()).collect());
+            let mut st = build_state(&s);
+            if !crate::props::c01::envelope_ok(name, &st) {
+                ctx.rec.count("outside_envelope_skipped", 1);
+                continue;
+            }
+            ctx.rec.case_marker(8_000_000 + ni as u64, name);
+            let o = step_named(&mut st, &mut is, &cache, name);
+            ctx.rec.count("profile_sweep_steps", 1);
+            ctx.rec.count("runs", 1);
+            if let Some(p) = o.panic {
+                ctx.rec.violation("C14", &format!("run|panic|{}", panic_sig(&p)), &format!("{} panicked on boundary operands: {} ; state {}", name, p, s.summary()), "");
+                dig ^= 0xDEAD;
+                continue;
+            }
+            dig = (dig ^ Snap::of(&st).digest()).wrapping_mul(0x100000001b3).rotate_left(11) ^ j;
+        }
+        ctx.rec.note(&format!("dig|sweep-{}|{}/{}", name, ctx.shard, ctx.nshards), &format!("{:016x}", dig));
+        ctx.rec.cover(&format!("sweep|{}", name));
+    }
+}
+
 pub fn run(ctx: &mut Ctx) {
     let (_is, names) = new_iset();
     let alphabet = deterministic_alphabet(&names);
@@ -547,8 +600,11 @@ pub fn run(ctx: &mut Ctx) {
             ctx.rec.sample("node-ids", &format!("{} threads x {} creations: first ids per thread {:?}", t, m, logs.iter().map(|l| l.first().copied().unwrap_or(0)).collect::<Vec<_>>()));
         }
     }
-    // (f) instruction-level history independence, (g) static-memory write monitor
+    // (f) instruction-level history independence, (g) static-memory write monitor,
+    // (h) per-instruction boundary sweep for the offline debug/release comparison
     if mode != "tsan" {
+        profile_sweep(ctx, &alphabet);
+        ctx.rec.checkpoint();
         history_independence(ctx, &alphabet);
         ctx.rec.checkpoint();
         static_write_monitor(ctx, &alphabet);
